@@ -34,3 +34,43 @@ struct InflateArm
     ~InflateArm() { inflate_ctl.armed = false; }
 };
 }  // namespace vx::seam
+
+// ------------------------------------------------------------------------------------------------ SQLite seam
+#include <string>
+#include <vector>
+struct sqlite3;
+namespace vx::seam
+{
+struct SqlCtl
+{
+    bool armed = false;        // count / fault statement executions only while armed
+    long execs = 0;            // statement executions since arming (an execution = first sqlite3_step after prepare/reset)
+    long writes = 0;           // of which not read-only
+    long fault_at = -1;        // 0-based index of the execution to fail
+    int fault_kind = 0;        // 1: return SQLITE_FULL without running the statement; 2: interrupt it through the progress handler
+    long faults_delivered = 0;
+    bool log_sql = false;
+    std::vector<std::string> log;
+    // VM-step horizon (progress handler): when > 0 a single sqlite3_step that needs more than this many VM steps is interrupted
+    long vm_budget = 0;
+    bool horizon_hit = false;
+    // internal
+    long vm_used = 0;
+    bool interrupt_now = false;
+};
+extern SqlCtl sql_ctl;
+std::vector<sqlite3*>& opened_handles();  // currently open connections, in open order
+struct SqlArm
+{
+    SqlArm()
+    {
+        bool log = sql_ctl.log_sql;
+        long budget = sql_ctl.vm_budget;
+        sql_ctl = SqlCtl();
+        sql_ctl.log_sql = log;
+        sql_ctl.vm_budget = budget;
+        sql_ctl.armed = true;
+    }
+    ~SqlArm() { sql_ctl.armed = false; }
+};
+}  // namespace vx::seam
